@@ -229,6 +229,7 @@ def main():
     undec = [r for r in results if r.status == UNDECIDED and r.ob.kind != 'reach']
     vacuous = [r for r in results if r.ob.kind == 'reach' and r.status == PROVED]
     reach_ok = [r for r in results if r.ob.kind == 'reach' and r.status == REFUTED]
+    reach_undec = [r for r in results if r.ob.kind == 'reach' and r.status == UNDECIDED]
     proved = [r for r in results if r.status == PROVED and r.ob.kind != 'reach']
     n_obl = len([r for r in results if r.ob.kind != 'reach']) + sum(len(fp) for _, fp in frame_fail)
     baseline = load_baseline(prop, tier)
@@ -313,7 +314,7 @@ def main():
         print(l)
     discharged = len(proved) + sum(e.get('discharged', 0) for e in extra)
     write_evidence(evid_path, prop, tier, seed, results, harnesses, wall, mod, ok=(rc == 0), n_obl=n_obl, discharged=discharged,
-                   violations=reported, extra=extra, undecided=len(undec), reach_ok=len(reach_ok), vacuous=len(vacuous))
+                   violations=reported, extra=extra, undecided=len(undec), reach_ok=len(reach_ok), vacuous=len(vacuous), reach_undec=[r.harness.name for r in reach_undec])
     print('SUMMARY property=%s tier=%s harnesses=%d obligations=%d proved=%d refuted=%d undecided=%d reach_refuted=%d wall=%.1fs exit=%d'
           % (prop, tier, len(harnesses), n_obl, discharged, len(refuted), len(undec), len(reach_ok), wall, rc))
     if args.write_baseline and rc == 0:
@@ -382,7 +383,7 @@ def known_always(known):
 
 
 def write_evidence(path, prop, tier, seed, results, harnesses, wall, mod, note=None, ok=True, n_obl=0, discharged=0, violations=0,
-                   extra=None, undecided=0, reach_ok=0, vacuous=0):
+                   extra=None, undecided=0, reach_ok=0, vacuous=0, reach_undec=()):
     by_backend = {}
     solver_secs = 0.0
     for r in results:
@@ -409,7 +410,8 @@ def write_evidence(path, prop, tier, seed, results, harnesses, wall, mod, note=N
             'back_ends': by_backend,
             'solver_seconds_total': round(solver_secs, 1),
             'undecided': undecided,
-            'vacuity': {'reach_obligations_refuted': reach_ok, 'reach_obligations_proved(vacuous)': vacuous},
+            'vacuity': {'reach_obligations_refuted': reach_ok, 'reach_obligations_proved(vacuous)': vacuous,
+                        'reach_obligations_undecided (no model of the whole path found within the time limit; not evidence of vacuity)': list(reach_undec)},
             'undecided_clauses': list(getattr(mod, 'UNDECIDED_CLAUSES', [])),
             'bounded_supplements': list(getattr(mod, 'BOUNDED', [])),
             'library_models_used': notes,
